@@ -447,6 +447,11 @@ Section Shared.
     else if is_nil vars then const_pairs
     else sort_by lp_leb_dm (map (fun nv => mk_label_pair (fst nv) (snd nv)) vars ++ const_pairs).
 
+  (* the label names read back from label pairs: registry.rs register (clash with the registry's common
+     labels: desc.const_label_pairs.iter().map(|lp| lp.name())) and histogram.rs HistogramCore::new
+     (check_bucket_label(pair.name()) over the metric's label pairs); they decide Ok / Err there *)
+  Definition label_names_dm (lps : list (tLP I)) : list str := map (LP_name I) lps.
+
   (* ---------------------------------------------------------------- the library's collectors *)
   (* Value::metric *)
   Definition value_metric_dm (label_pairs : list (tLP I)) (t : valtype) (v : f64) : tM I :=
